@@ -496,6 +496,14 @@ def enum_by_name(interp, cname, name):
         summ = interp.p.summaries.get('enum_by_name')
         if summ is not None:
             return summ(interp, cname, name)
+        cps = sym.s_chars(name)
+        if cps is not None:
+            # a name of concrete length: it is one of the members of that length, or absent
+            c = ctx()
+            for k in ncls.__members__:
+                if len(k) == len(cps) and c.truth(b_and(*[i_cmp('==', cp, ord(ch)) for cp, ch in zip(cps, k)])):
+                    return interp.lift_enum(ncls[k])
+            raise PyExc('KeyError', 'name', True)
     raise Unsupported('enum lookup by symbolic name')
 
 
@@ -1637,6 +1645,9 @@ def str_method(interp, recv, name, args, kwargs):
     exact = _exact_char_search(interp, recv, name, args)
     if exact is not NotImplemented:
         return exact
+    exact = _exact_char_map(interp, recv, name, args)
+    if exact is not NotImplemented:
+        return exact
     if name in PURE_STR_METHODS_INT:
         # assumed contract: the result is a function of the receiver and the arguments; find-like results are -1 or a
         # position at which the pattern fits inside the text (and not before an integer start position)
@@ -1718,6 +1729,38 @@ def str_method(interp, recv, name, args, kwargs):
     if name in PURE_STR_METHODS_STR:
         return str_uf(interp, name, recv, *args, sort='str')
     raise Unsupported('str.%s on symbolic string' % name)
+
+
+def _exact_char_map(interp, recv, name, args):
+    """upper / lower / replace(one char, one char) on ASCII strings of concrete length, character by character"""
+    if name not in ('upper', 'lower', 'replace') or not is_str(recv):
+        return NotImplemented
+    cps = sym.s_chars(recv)
+    if cps is None:
+        return NotImplemented
+    c = ctx()
+    for cp in cps:
+        if is_z3(cp) and not c.truth(b_and(i_cmp('>=', cp, 0), i_cmp('<', cp, 128))):
+            raise Unsupported('case mapping of non-ASCII text')
+        if not is_z3(cp) and cp >= 128:
+            return NotImplemented
+    out = []
+    if name in ('upper', 'lower'):
+        if args:
+            return NotImplemented
+        lo, hi, d = (97, 122, -32) if name == 'upper' else (65, 90, 32)
+        for cp in cps:
+            if c.truth(b_and(i_cmp('>=', cp, lo), i_cmp('<=', cp, hi))):
+                out.append(i_add(cp, d))
+            else:
+                out.append(cp)
+        return sym.s_from_chars(out)
+    if len(args) != 2 or not isinstance(args[0], str) or not isinstance(args[1], str) or len(args[0]) != 1 or len(args[1]) != 1:
+        return NotImplemented
+    a, b_ = ord(args[0]), ord(args[1])
+    for cp in cps:
+        out.append(b_ if c.truth(i_cmp('==', cp, a)) else cp)
+    return sym.s_from_chars(out)
 
 
 def _exact_char_search(interp, recv, name, args):
